@@ -38,6 +38,10 @@ def advance (env : Env) (alwaysReady : Bool) : Nat → World → World
     | .dispatching _ => advance env alwaysReady fuel (step env w .wDispatch)
     | .failing _ => advance env alwaysReady fuel (step env w .wErrback)
     | .exiting => advance env alwaysReady fuel (step env w .wExit)
+    | .closingSelf =>
+      -- SSHSession.close() skips transport.close() (the harness' rendezvous point) when the
+      -- transport was already closed by a client thread
+      if !alwaysReady && w.socketClosed then advance env alwaysReady fuel (step env w .wCloseSelf) else w
     | _ => w
 
 def errTok : ErrK → String
@@ -93,6 +97,7 @@ def parseOp (args : List String) : Option Op :=
   | ["kFinish"] => some .kFinish
   | ["wTop", r] => some (.wTop (r == "1"))
   | ["wWrite", n] => n.toInt?.map .wWrite
+  | ["wWriteErr"] => some .wWriteErr
   | ["wSelect", e] => some (.wSelect (e == "1"))
   | ["wRead", "eof"] => some (.wRead .eof)
   | ["wRead", "err"] => some (.wRead .err)
